@@ -2,8 +2,8 @@ package rpc
 
 import (
 	"fmt"
-	"os"
 	"math/rand"
+	"os"
 	"sort"
 	"strconv"
 	"strings"
